@@ -33,10 +33,11 @@ type timingScenario struct {
 }
 
 type timingResult struct {
-	sc     timingScenario
-	detail string
-	viol   string
-	key    string
+	retried bool
+	sc      timingScenario
+	detail  string
+	viol    string
+	key     string
 }
 
 const timingSlack = 1200 * time.Millisecond
@@ -196,9 +197,11 @@ func runTimingScenario(sc timingScenario) (res timingResult) {
 	stop := make(chan struct{})
 	var wg sync.WaitGroup
 	mark := func() {}
-	period := sc.timeout() / 6
-	if period > 400*time.Millisecond {
-		period = 400 * time.Millisecond
+	// a period that does not divide a second, so that the distance between a second boundary and the
+	// next transmission changes from second to second
+	period := sc.timeout() * 23 / 100
+	if period > 370*time.Millisecond {
+		period = 370 * time.Millisecond
 	}
 	var connErr error
 	var connMu sync.Mutex
@@ -285,8 +288,12 @@ func runTimingScenario(sc timingScenario) (res timingResult) {
 	}
 	T := sc.timeout()
 	if sc.expectAlive() {
-		// watch for 2.5 timeouts: the session must not end
-		deadline := start.Add(T*5/2 + sc.check)
+		// watch for 2.5 timeouts (at least 5 s, so that several second boundaries pass): the session must not end
+		watch := T * 5 / 2
+		if watch < 5*time.Second {
+			watch = 5 * time.Second
+		}
+		deadline := start.Add(watch + sc.check)
 		in.core.waitFor(time.Until(deadline), func() bool { return rec.closeCount > 0 })
 		at, closed := closedAt()
 		close(stop)
@@ -333,6 +340,7 @@ func timingScenarios(c *corr.Ctx) []timingScenario {
 		{3 * time.Second, 3 * time.Second, 300 * time.Millisecond},
 		{2 * time.Second, 3 * time.Second, 500 * time.Millisecond},
 		{3 * time.Second, 2 * time.Second, 200 * time.Millisecond},
+		{2 * time.Second, 1 * time.Second, 100 * time.Millisecond}, // packet times must not be kept in whole seconds
 	}
 	for _, v := range tvs {
 		for _, tr := range []string{"u", "t"} {
@@ -340,9 +348,6 @@ func timingScenarios(c *corr.Ctx) []timingScenario {
 				for _, beh := range []struct{ control, media bool }{{true, true}, {true, false}, {false, true}, {false, false}} {
 					sc := timingScenario{transport: tr, record: rec, stream: true, control: beh.control, media: beh.media,
 						idle: v.idle, read: v.read, check: v.check}
-					if rec && beh.media && v.read < 3*time.Second {
-						continue // packets are time-stamped in whole seconds: a live publisher needs gap + 1 s <= ReadTimeout
-					}
 					sc.name = fmt.Sprintf("%s-%s-control=%v-media=%v-idle=%v-read=%v-check=%v", map[bool]string{false: "play", true: "record"}[rec],
 						map[string]string{"u": "udp", "t": "tcp"}[tr], beh.control, beh.media, v.idle, v.read, v.check)
 					out = append(out, sc)
@@ -370,11 +375,23 @@ func runTiming(c *corr.Ctx) {
 			sem <- struct{}{}
 			defer func() { <-sem }()
 			results[i] = runTimingScenario(sc)
+			if results[i].viol != "" {
+				// real timers under load: a finding must reproduce
+				again := runTimingScenario(sc)
+				if again.viol == "" {
+					again.detail += " (first attempt: " + results[i].viol + ")"
+					again.retried = true
+				}
+				results[i] = again
+			}
 		}(i, sc)
 	}
 	wg.Wait()
 	for _, r := range results {
 		c.CountOnly("timing:"+r.sc.name, true)
+		if r.retried {
+			c.Dist("timing:passed-on-second-attempt")
+		}
 		switch {
 		case r.viol != "":
 			c.Dist("timing:violation")
